@@ -798,7 +798,9 @@ func vSchedule(out *vOut, rng *vRand, nr int, split bool) vSched {
 		res.failed = true
 		term := fmt.Sprintf("(%s, %s, ([], 0))", cfg.term(), vList(phases))
 		if split {
-			term = fmt.Sprintf("(* split family, max_size %d, item ids 10r+j: %s *)", cfg.max, term)
+			// not a case of the model (the LTS does not split requests): a dummy term, the schedule goes into the detail
+			detail = fmt.Sprintf("%s  [split family, max_size %d, item ids 10r+j, schedule %s]", detail, cfg.max, term)
+			term = "([8], [], ([], 0))"
 		}
 		out.Oracle(kind, term, detail)
 		vFlush(out)
@@ -1140,7 +1142,7 @@ func vStress(out *vOut, rng *vRand, nr int) (failed, abort bool) {
 	desc := fmt.Sprintf("stress #%d cfg=%+v", nr, cfg)
 	fail := func(kind, detail string) {
 		failed = true
-		out.Oracle(kind, "(* "+desc+" *)", detail)
+		out.Oracle(kind, "([8], [], ([], 0))", detail+"  ["+desc+"]") // not a case of the model: dummy term
 		vFlush(out)
 	}
 	producers := 1 + rng.Intn(3)
